@@ -20,16 +20,44 @@ Definition tok := nat.
 Definition Module : acct := 0%nat.
 Definition tok_addr (t : tok) : acct := (100 + t)%nat.
 
-(** Bank denoms: ordinary coins, and the derived denom "erc20/<address of t>" that
-    createFunTokenFromERC20 computes (injective in the address by construction). *)
-Inductive denom := DCoin (n : nat) | DErc (t : tok).
+(** Bank denoms are STRINGS, compared byte for byte by the bank and by the FunTokens indexes.
+    [DCoin n]: the n-th ordinary coin in the spelling the chain itself uses ("ucoin<n>", unibi,
+    "tf/<creator>/<sub>"); [DErc t]: the derived denom "erc20/<EIP55 address of t>" that
+    createFunTokenFromERC20 computes (injective in the address by construction); [DIbc h]: the IBC
+    voucher "ibc/<HASH h>" with the hash in upper-case hex, as x/ibc-transfer mints it;
+    [DAlt b sp]: the sp-th OTHER string that differs from the chain's spelling of the name [b] only
+    by letter case (lower-/upper-/mixed-case hash of a voucher, "UCOIN0", "erc20/0xabc…" in lower
+    case, "IBC/…").  All of these are different strings, hence different bank denoms: a coin, its
+    metadata and a FunToken mapping registered under one spelling do not exist under another. *)
+Inductive dname := NCoin (n : nat) | NErc (t : tok) | NIbc (h : nat).
+Inductive denom := DCoin (n : nat) | DErc (t : tok) | DIbc (h : nat) | DAlt (b : dname) (sp : nat).
+
+Definition dname_eqb (a b : dname) : bool :=
+  match a, b with
+  | NCoin x, NCoin y => Nat.eqb x y
+  | NErc x, NErc y => Nat.eqb x y
+  | NIbc x, NIbc y => Nat.eqb x y
+  | _, _ => false
+  end.
 
 Definition denom_eqb (a b : denom) : bool :=
   match a, b with
   | DCoin x, DCoin y => Nat.eqb x y
   | DErc x, DErc y => Nat.eqb x y
+  | DIbc x, DIbc y => Nat.eqb x y
+  | DAlt b1 s1, DAlt b2 s2 => dname_eqb b1 b2 && Nat.eqb s1 s2
   | _, _ => false
   end.
+
+(** the name a string spells, and the chain's own spelling of a name *)
+Definition name_of (d : denom) : dname :=
+  match d with DCoin n => NCoin n | DErc t => NErc t | DIbc h => NIbc h | DAlt b _ => b end.
+Definition chain_spelling (b : dname) : denom :=
+  match b with NCoin n => DCoin n | NErc t => DErc t | NIbc h => DIbc h end.
+
+(** everything but the derived "erc20/<EIP55>" denom is an ordinary coin for the bank: other modules can
+    mint it, register metadata for it, … (a lower-case "erc20/0xabc…" is such an ordinary coin, too) *)
+Definition is_coin (d : denom) : bool := match d with DErc _ => false | _ => true end.
 
 (** FunToken mapping (evm.FunToken): ERC20 address, bank denom, IsMadeFromCoin. *)
 Record mapping := { m_tok : tok; m_den : denom; m_coin : bool }.
@@ -233,13 +261,37 @@ Definition pay_create_fee (s : st) (sender : acct) : option st :=
   _ <- guard (negb (Nat.eqb sender Module)) ;;
   bank_burn s sender DGas create_fee.
 
-(** createFunTokenFromCoin: denom index check, metadata, deploy the ERC20 at a fresh address, ERC20 index check, insert *)
-Definition create_coin_core (s : st) (d : denom) : option st :=
-  _ <- guard (negb (is_some (find_den s d)) && meta s d) ;;
+(** createFunTokenFromCoin: denom index check, metadata, deploy the ERC20 at a fresh address, ERC20 index check, insert.
+    Three steps consume a denom STRING: the index guard ([dg]), the metadata lookup ([dm]) and the insert ([di]). *)
+Definition create_coin_gen (s : st) (dg dm di : denom) : option st :=
+  _ <- guard (negb (is_some (find_den s dg)) && meta s dm) ;;
   let t := next_tok s in
   let s1 := new_token s minter_beh Module 0 in
   _ <- guard (negb (is_some (find_tok s t))) ;;
-  Some (set_reg s1 (reg s1 ++ [{| m_tok := t; m_den := d; m_coin := true |}])).
+  Some (set_reg s1 (reg s1 ++ [{| m_tok := t; m_den := di; m_coin := true |}])).
+
+(** the current tree hands the message's string, exactly as given, to all three *)
+Definition create_coin_core (s : st) (d : denom) : option st := create_coin_gen s d d d.
+
+(** Configuration switch (re-read from the source on every run, Gen/C06Facts.v [current_create_coin_denoms]):
+    WHICH VALUE of the denom each of the three steps uses — the string of the message as given ([VRaw]) or a
+    value the function computed from it first ([VRewritten]: canonicalised, trimmed, case-folded, …; [VOther]:
+    not understood by the extractor, treated as rewritten). *)
+Inductive dver := VRaw | VRewritten | VOther.
+Record create_denoms := { cd_guard : dver; cd_meta : dver; cd_insert : dver }.
+Definition model_create_denoms : create_denoms := {| cd_guard := VRaw; cd_meta := VRaw; cd_insert := VRaw |}.
+
+Definition pick_den (cn : denom -> denom) (v : dver) (d : denom) : denom :=
+  match v with VRaw => d | VRewritten | VOther => cn d end.
+
+Definition create_coin_core_with (cn : denom -> denom) (c : create_denoms) (s : st) (d : denom) : option st :=
+  create_coin_gen s (pick_den cn (cd_guard c) d) (pick_den cn (cd_meta c) d) (pick_den cn (cd_insert c) d).
+
+(** rewrites a tree could apply: none; "a voucher hash in any letter case means the voucher" (the hash is hex, the bank
+    stores it in upper case); full case-insensitivity *)
+Definition canon_none (d : denom) : denom := d.
+Definition canon_ibc_hash (d : denom) : denom := match d with DAlt (NIbc h) _ => DIbc h | _ => d end.
+Definition canon_name (d : denom) : denom := chain_spelling (name_of d).
 
 (** createFunTokenFromERC20: ERC20 index check, contract answers metadata, bank metadata + denom index check, insert *)
 Definition create_erc20_core (s : st) (t : tok) : option st :=
@@ -255,15 +307,9 @@ Definition is_admin (s : st) (d : denom) (a : acct) : bool :=
 Definition exec (s : st) (o : op) : option st :=
   match o with
   | Fund a d x =>
-      match d with
-      | DCoin _ => bank_mint s a d x
-      | DErc _ => None
-      end
+      if is_coin d then bank_mint s a d x else None
   | SetMeta d =>
-      match d with
-      | DCoin _ => Some (set_meta s (updD (meta s) d true))
-      | DErc _ => None
-      end
+      if is_coin d then Some (set_meta s (updD (meta s) d true)) else None
   | Deploy owner b x =>
       _ <- guard (negb (Nat.eqb owner Module) && (0 <=? x)) ;;
       Some (new_token s b owner x)
@@ -305,26 +351,20 @@ Definition exec (s : st) (o : op) : option st :=
       | Some b => _ <- guard (tb_burn b) ;; erc_burn s t caller x
       end
   | TfCreate creator d =>
-      match d with
-      | DCoin _ =>
+      if is_coin d then
           _ <- guard (negb (Nat.eqb creator Module) && negb (is_some (tfadmin s d))) ;;
           Some (set_tfadmin (set_meta s (updD (meta s) d true)) (updD (tfadmin s) d (Some creator)))
-      | DErc _ => None
-      end
+      else None
   | TfMint sender d x to =>
-      match d with
-      | DCoin _ =>
+      if is_coin d then
           _ <- guard (is_admin s d sender && (0 <? x) && negb (blocked to)) ;;
           bank_mint s to d x
-      | DErc _ => None
-      end
+      else None
   | TfBurn sender d x from =>
-      match d with
-      | DCoin _ =>
+      if is_coin d then
           _ <- guard (is_admin s d sender && (0 <? x) && negb (blocked from)) ;;
           bank_burn s from d x
-      | DErc _ => None
-      end
+      else None
   | TfChangeAdmin sender d new =>
       _ <- guard (is_admin s d sender) ;;
       Some (set_tfadmin s (updD (tfadmin s) d (Some new)))
@@ -353,6 +393,35 @@ Fixpoint step (s : st) (o : op) : st * bool :=
   end.
 
 Definition run (s : st) (ops : list op) : st := fold_left (fun s o => fst (step s o)) ops s.
+
+(** the same machine for a tree whose createFunTokenFromCoin rewrites the denom with [cn] and uses the values [c] *)
+Definition exec_with (cn : denom -> denom) (c : create_denoms) (s : st) (o : op) : option st :=
+  match o with
+  | CreateFromCoin sender d => s0 <- pay_create_fee s sender ;; create_coin_core_with cn c s0 d
+  | _ => exec s o
+  end.
+
+Fixpoint step_with (cn : denom -> denom) (c : create_denoms) (s : st) (o : op) : st * bool :=
+  match o with
+  | Framed f o' =>
+      let r := step_with cn c s o' in
+      match f with
+      | FPlain | FOnceThenReverted => r
+      | FRevertTop | FBadArgs | FOog => (s, false)
+      | FInnerRevert => (s, true)
+      | FSwallow => (fst r, true)
+      end
+  | Seq o1 o2 =>
+      let r1 := step_with cn c s o1 in
+      if snd r1 then
+        let r2 := step_with cn c (fst r1) o2 in
+        if snd r2 then (fst r2, true) else (s, false)
+      else (s, false)
+  | _ => match exec_with cn c s o with Some s' => (s', true) | None => (s, false) end
+  end.
+
+Definition run_with (cn : denom -> denom) (c : create_denoms) (s : st) (ops : list op) : st :=
+  fold_left (fun s o => fst (step_with cn c s o)) ops s.
 
 (** * Observables of one mapping: ERC20 totalSupply, ERC20 balanceOf(module), bank supply, bank balance of the module *)
 Definition obs_map (s : st) (m : mapping) : Z * Z * Z * Z :=
